@@ -31,6 +31,13 @@ MANIFEST = {
 
 def generate(seed, tier):
     rng = Streams(seed).get('gen')
+    if rng.random() < (0.004 if tier == 'quick' else 0.008):
+        # a store of about a thousand blocks (the size at which a paged, chunked or limited read-back would first differ from
+        # a complete one) with many groups of competing blocks of one height
+        return {'config': {'big': {'linear': rng.randint(880, 990), 'dense': rng.randint(40, 90), 'width': rng.choice([2, 2, 3]),
+                                   'scatter': rng.choice([0.0, 0.03, 0.08]), 'batch': rng.choice([50, 100, 250, 1000]),
+                                   'via_di': rng.random() < 0.5}},
+                'ops': [{'op': 'big_store'}]}
     n = rng.randint(3, 30 if tier == 'quick' else 60)
     share = rng.random() < 0.3
     ops_build = []
@@ -154,9 +161,139 @@ class _FailingConnection:
         return getattr(self._conn, name)
 
 
+def _execute_big(script):
+    """About a thousand hand-made blocks (coinbase only; storage does not look at validity): a trunk plus dead-end siblings,
+    written in batches, then a restart: everything written reads back, parents first, and the rebuilt state is at the trunk tip."""
+    import immutables
+    import skepticoin.blockstore as bs
+    from skepticoin.blockstore import BlockStore
+    from skepticoin.scripts.utils import read_chain_from_disk
+    from skepticoin.consensus import construct_coinbase_transaction, calc_merkle_root_hash
+    from skepticoin.datatypes import Block, BlockHeader, BlockSummary, PowEvidence
+    from skepticoin.networking.disk_interface import DiskInterface
+    from engines.ledger import key
+    res = Result()
+    trace = Trace()
+    big = script['config']['big']
+    rng = Streams(big['linear'] * 1000 + big['dense']).get('big')
+    path = os.path.join(env.scratch_dir(), 'c08big-%d.db' % os.getpid())
+    for suffix in ('', '-journal'):
+        try:
+            os.remove(path + suffix)
+        except OSError:
+            pass
+    store = BlockStore(path)
+    try:
+        genesis = next(iter(store.read_blocks_from_disk()))
+        pk = key(0).pk
+
+        def child(parent, tag):
+            h = parent.height + 1
+            cb = construct_coinbase_transaction(h, [], immutables.Map(), tag, pk)
+            s = BlockSummary(h, parent.hash(), calc_merkle_root_hash([cb]), parent.timestamp + 1, b'\xff' * 32, 0)
+            return Block.deserialize(Block(BlockHeader(s, PowEvidence(b'\x00' * 32, b'\x00' * 32, b'\x00' * 32)), [cb]).serialize())
+
+        written = [genesis]
+        order = []
+        tip = genesis
+        top = big['linear'] + big['dense']
+        for h in range(1, top + 1):
+            extra = 0
+            if h == top:
+                extra = 0               # one unrivalled block on top: the head is unique whatever the order among equals
+            elif h > big['linear']:
+                extra = big['width'] - 1
+            elif rng.random() < big['scatter']:
+                extra = 1
+            group = [child(tip, b'trunk')] + [child(tip, b'side%d' % j) for j in range(extra)]
+            order += group
+            tip = group[0]
+        di = DiskInterface()
+        via_di = big.get('via_di')
+        n = 0
+        for blk in order:
+            if via_di:
+                bs.DefaultBlockStore.instance = store
+                di.save_block(blk)
+            else:
+                store.add_block_to_buffer(blk)
+            n += 1
+            if n % big['batch'] == 0:
+                if via_di:
+                    di.flush_blocks()
+                else:
+                    store.flush_blocks_to_disk()
+                res.bump('flushes')
+        if via_di:
+            di.flush_blocks()
+        else:
+            store.flush_blocks_to_disk()
+        res.bump('flushes')
+        written += order
+        store.close()
+        store = BlockStore(path)
+        res.bump('reopens')
+        got = list(store.read_blocks_from_disk())
+        res.bump('read_backs')
+        res.events += len(got)
+        want = {b.hash(): b.serialize() for b in written[1:]}
+        ids = [b.hash() for b in got]
+        seen = set()
+        msg = None
+        if len(set(ids)) != len(ids):
+            msg = 'a block id is returned twice'
+        else:
+            for b in got:
+                bid = b.hash()
+                p = b.header.summary.previous_block_hash
+                if bid != genesis.hash() and bid not in want:
+                    msg = 'store returned a block that was never flushed'
+                    break
+                if p != b'\x00' * 32 and p not in seen:
+                    msg = 'block %s (height %d) returned before its parent%s' % (
+                        bid.hex()[:12], b.height, '' if p in set(ids) else ', which is not returned at all')
+                    break
+                if bid in want and b.serialize() != want[bid]:
+                    msg = 'block at height %d does not read back byte-identical' % b.height
+                    break
+                seen.add(bid)
+            if msg is None and len(ids) != len(written):
+                missing = [b for b in written if b.hash() not in seen]
+                msg = '%d of %d flushed blocks are not read back (first: height %d, row %d of the table in height order)' % (
+                    len(missing), len(written), missing[0].height, sorted(x.height for x in written).index(missing[0].height))
+        if msg is not None:
+            res.violate(PROP, 'C08/readback-mismatch', 'store of %d blocks: %s' % (len(written), msg), {'f6_consistent': False})
+        else:
+            bs.DefaultBlockStore.instance = store
+            with env.quiet():
+                cs = read_chain_from_disk()
+            res.bump('rebuilds')
+            if cs.head().hash() != tip.hash() or len(cs.block_by_hash) != len(written):
+                res.violate(PROP, 'C08/rebuilt-state-lacks-block', 'store of %d blocks: rebuilt head at height %d (want %d), %d blocks in the '
+                            'rebuilt state' % (len(written), cs.head().height, tip.height, len(cs.block_by_hash)), {'f6_consistent': False})
+        res.bump('probe:store_of_a_thousand_blocks_with_sibling_groups')
+        res.bump('probe:tree_has_fork')
+        trace.add('big', len(written), tip.hash())
+    finally:
+        try:
+            store.close()
+        except Exception:
+            pass
+        for suffix in ('', '-journal'):
+            try:
+                os.remove(path + suffix)
+            except OSError:
+                pass
+    res.distinct.add('big:%d:%d:%d:%s' % (big['linear'], big['dense'], big['width'], big['scatter']))
+    res.digest = trace.digest()
+    return res
+
+
 def execute(script):
     env.setup()
     env.use_fast_scrypt(True)
+    if script['config'].get('big'):
+        return _execute_big(script)
     import skepticoin.blockstore as bs
     from skepticoin.blockstore import BlockStore
     from skepticoin.scripts.utils import read_chain_from_disk
